@@ -38,16 +38,16 @@ CHECKS.update({
         'specifications validated against GEOS per case; shapely polygon construction and STRtree are not modelled.',
         'DESIGN.md section 4 C02'),
     'C03': (
-        'Coq proof (wind o ravel = id through labelled get, fresh dimension by pigeonhole, refusal) + vm_compute correspondence',
+        'Coq proof (wind o ravel = id and ravel o wind = id through labelled get, fresh dimension by pigeonhole, refusal) + vm_compute correspondence',
         'Theorems C03_* prove for any rank, any position / order of the grid dimensions and any sizes that flattening then '
         'winding returns the original value under every labelling with the grid dimensions restored after the untouched '
         'other dimensions, that values are only moved (C03_ravel_get), that a variable on no grid is refused and that the '
         'default linear name is unused.  The same executable definitions are evaluated by coqc on generated variables (all '
         'permutations of <= 3 extra dimensions in the thorough tier, default / custom / colliding names, wind by position, '
         'axis and name, wind-then-ravel) and diffed against ems.ravel / ems.wind / utils.*.',
-        'Trusted: Coq kernel; model Flatten.v (numpy transpose/reshape and xarray dims semantics are modelled). The '
-        'converse direction (ravel o wind = id) is checked per run on the implementation and by correspondence, not yet '
-        'as a theorem.',
+        'Trusted: Coq kernel; model Flatten.v (numpy transpose/reshape and xarray dims semantics are modelled). Both '
+        'directions are theorems: C03_wind_ravel (flatten then wind) and C03_ravel_wind (wind then flatten, the linear '
+        'dimension anywhere among the dimensions).',
         'DESIGN.md section 4 C03'),
     'C04': (
         'Coq proof (lowest-index hit for every hit order, parametric in the intersection predicate) + vm_compute correspondence',
@@ -109,7 +109,8 @@ CHECKS.update({
         'are decoded by the model and diffed, the implementation\'s five tables go through the verified checker (edge numbering '
         'of derived tables is Python-set order, so they are validated against the relation) and the derivations that are '
         'deterministic given their inputs (face_edge from edge_node, edge_face from face_edge, face_face from edge_face) are '
-        'compared exactly with the model.',
+        'compared exactly with the model.  C10_derived_face_edge / edge_face / face_face prove that those three '
+        'derivations, as modelled from the code, always produce tables the relation accepts (for every valid face and edge list).',
         'Trusted: Coq kernel; model Topology.v; python restatement of the relation (cross-checked against the verified '
         'checker per case).  Without any edge dimension (none declared or implied) the code refuses edge-based tables; that is '
         'outside the property\'s quantifier and only counted.',
@@ -318,9 +319,12 @@ CHECKS.update({
         'array at every depth.',
         'Trusted: Coq kernel; model Transect.v; the python clipping oracle (exact Fractions).  PARTIAL: containment and '
         'coverage are decided per run against the oracle with a 1e-9 degree tolerance (GEOS constructs the cut points in '
-        'floating point); metre distances come from cartopy / pyproj projections that are not modelled - only order, '
-        'start <= end and equality where pieces meet are checked on them; cfunits is replaced by a stand-in (udunits2 is '
-        'absent from this sandbox).',
+        'floating point); metre distances come from cartopy / pyproj projections that are not modelled: every piece\'s start '
+        'and end distance is compared per run (1e-6 relative) with the geodesic distance accumulated per path vertex '
+        '(pyproj.Geod), on datasets at the equator and at 56N+, in addition to order, start <= end and equality where pieces '
+        'meet; cfunits is replaced by a stand-in (udunits2 is absent from this sandbox) and, because this sandbox\'s cartopy / '
+        'PROJ pair mis-projects PlateCarree latitudes (DESIGN.md section 14), the point projection is taken from the geodetic '
+        'form of the same CRS when that fault is detected.',
         'DESIGN.md section 4 C18'),
 })
 
